@@ -4,7 +4,7 @@ CONFIG = dict(
     technique="Lean 4 theorems (refinement of the batched watch fold to the one-event-at-a-time semantics for every batching; "
               "machine invariant for self presence; MakeMembers against a declarative specification; interleaving model of field "
               "stores vs. a getter's single load) over a hand-written model + differential correspondence with the real provider "
-              "fold and the real directory + getter facts regenerated from the source by a go/ast extractor and re-checked by the kernel",
+              "fold and the real directory (incl. the real StartMember on an in-memory etcd) + getter facts and the start-up order (initial publication before the watch goroutine) regenerated from the source by a go/ast extractor and re-checked by the kernel",
     level_text="Machine-checked proof in Lean 4 that the model of handleWatchResponse/updateNodesWithChanges folds every history, under every "
                "batching into watch responses, to the member set the events imply one at a time (self never touched, duplicates idempotent, "
                "unknown deletes no-ops, dead registrations removed); that after the initial listing every publication contains the node itself "
@@ -26,7 +26,8 @@ CONFIG = dict(
     required_theorems=["fold_eq_implied", "batching_independent", "self_always_present", "duplicate_event_idempotent",
                        "delete_unknown_noop", "reregistration_replaces", "typeList_eq_spec", "workList_eq_spec",
                        "getService_resolves", "directory_is_function_of_member_set", "directory_is_function_of_history",
-                       "read_sees_whole_view", "getter_facts_match_source"],
+                       "read_sees_whole_view", "getter_facts_match_source",
+                       "initial_publish_before_watch", "sequential_publications_end_in_last"],
     harness_pkg="./c08",
     go_flags=["-overlay=/verif/harness/c08/overlay/overlay.json"],
     mode="diff",
@@ -45,7 +46,9 @@ CONFIG = dict(
          "lives with own state changes, empty responses and failed responses; every history of <= VERIF_EXH events over a 10-event alphabet is "
          "run under every batching against two listings (exhaustive). After publications the real app.Cluster, fed by the provider, is queried "
          "(GetMembers, GetServiceList, GetWorkServiceList, GetService, GetWorkServiceNames for all types and a name universe); `mk` ops build "
-         "the directory from explicit member lists incl. duplicate ids, duplicate and malformed service names. A case is non-trivial when the "
+         "the directory from explicit member lists incl. duplicate ids, duplicate and malformed service names. `start` ops run the real StartMember on in-memory KV/Lease/Watcher stand-ins inside a synctest bubble "
+         "(listing, then a response right after the watch opened, the first directory store held until a second publication or 500 ms of "
+         "virtual time) and observe what the directory holds in the end; a `stress` op is a reader/updater smoke run. A case is non-trivial when the "
          "observation carries a publication or a directory dump; distinct = distinct (op, observation) pairs",
     trusted_base=[
         "Lean 4.33.0 kernel; axioms of every property theorem audited on each run (allowed: propext, Classical.choice, Quot.sound)",
@@ -53,6 +56,7 @@ CONFIG = dict(
         "go/ast extractor harness/c08/extract (syntax only) regenerating lean/Cell2v/Gen/C08Facts.lean; theorem getter_facts_match_source is re-checked against it on every run",
         "white-box shim harness/c08/overlay/export_verif.go (one-line accessors: provider without etcd client, init, updateNodesWithSelf+publish, _keepWatching on an injected channel)",
         "harness canonicalisation: published member lists and directory answers sorted; a service name listed more than once resolves to an arbitrary item in the code (Go map order) and is rendered dup<k>;in|out; a directory built from a published list with duplicate member ids (reachable only with key/id mismatches) is not queried",
+        "in-memory stand-ins for clientv3 KV/Lease/Watcher (harness/c08) used by the `start` op; testing/synctest (go1.26) virtualises the 500 ms hold",
         "encoding/json: the harness writes the JSON a peer would write (json.Marshal of the same fields) and six kinds of invalid values",
     ],
     assumptions=[
